@@ -93,6 +93,39 @@ def run_case(chk, case):
                 return
             ms.append([int(m.feat_pass), feature_cols.index(m.best_feat), bool(m.desc), bool(m.override),
                        bool(m.is_trained)])
+        # --- independent recomputation of every fold's best single feature (C01 model + find_best_feature rule)
+        allrows = {}
+        for df in tabs:
+            labs = raw_labels(df)
+            for j, i in enumerate(df["rowid"]):
+                allrows[int(i)] = ({c: int(df[c].iloc[j]) for c in feature_cols}, labs[j] in (1, True))
+        for f, m in enumerate(models):
+            tag = getattr(m.estimator, "tag_", None)
+            ids = recest.training_rows(run, tag) if tag is not None else None
+            if not ids:
+                continue
+            reqs = []
+            for c in feature_cols:
+                for desc_ in (True, False):
+                    reqs.append(req("labels", desc_, Fraction(THR), [[allrows[i][0][c], allrows[i][1]] for i in ids]))
+            counts = [sum(1 for x in dec(r_) if x == "1") for r_ in common.driver_batch(reqs)]
+            cd, ca = counts[0::2], counts[1::2]
+            best = dec(common.driver_batch([req("fbbest", cd, ca)])[0])
+            if best == "none":
+                continue
+            exp_n = int(best[1])
+            # any (feature, direction) reaching the maximum count is an acceptable "best feature"
+            got = (ms[f][1], ms[f][0], ms[f][2])
+            got_count = (cd if got[2] else ca)[got[0]]
+            if got[1] != exp_n or got_count != exp_n:
+                chk.spec_violation("best-feature-not-best",
+                                   dict(case=case, fold=f, reported=dict(feature=feature_cols[got[0]], feat_pass=got[1], desc=got[2]),
+                                        counts_desc=dict(zip(feature_cols, cd)), counts_asc=dict(zip(feature_cols, ca)),
+                                        clause=f"fold {f}: the model's best feature accepts {got[1]} targets but a single "
+                                               f"feature accepts {exp_n} on the same training set"))
+                return
+            elif [int(best[0]), best[2] == "T"] != [got[0], got[2]] and sum(1 for x in cd + ca if x == exp_n) == 1:
+                chk.corr_break("fbbest", dict(case=case, fold=f, model=best, impl=list(got)))
         all_trained = all(m[4] for m in ms)
         model_scores = []
         if all_trained:
